@@ -697,7 +697,8 @@ def heap_unit(repo, rel):
     if not os.path.exists(pre):
         with open(pre, 'w') as f:
             f.write(HEAP_PRELUDE)
-    return compile_ir(os.path.join(repo, rel), repo, ['-include', pre])
+    from irlib import keep_all_but_new_helpers
+    return compile_ir(os.path.join(repo, rel), repo, ['-include', pre], inline=keep_all_but_new_helpers())
 
 
 def trace_const(fn, v):
